@@ -6,10 +6,14 @@ TIER=${TIER:-quick}
 cd /verif
 git -C /repo diff --quiet || { echo "/repo has uncommitted changes"; exit 2; }
 git -C /repo apply "$PATCH" || { echo "patch does not apply"; exit 2; }
+# evidence and replay files written while the seeded change is applied are not evidence about /repo
+rm -rf /tmp/evidence-backup && cp -r /verif/evidence /tmp/evidence-backup && cp -r /verif/replays /tmp/replays-backup 2>/dev/null
 for c in "$@"; do
   out=$(./check $c --tier $TIER 2>&1); code=$?
   sigs=$(echo "$out" | grep -E "^  signature:" | sed 's/  signature: //' | tr '\n' ';' | cut -c1-300)
   echo "RESULT seed=$(basename $(dirname $PATCH)) check=$c tier=$TIER exit=$code signatures=[$sigs]"
 done
 git -C /repo checkout -- .
+rm -rf /verif/evidence && mv /tmp/evidence-backup /verif/evidence
+if [ -d /tmp/replays-backup ]; then rm -rf /verif/replays && mv /tmp/replays-backup /verif/replays; fi
 git -C /repo status --short | head -3
